@@ -1514,7 +1514,7 @@ def check(tier: str) -> int:
         elif c.get("kind") == "e2e":
             corpus_e2e.append(c)
     n_corpus = len(sruns) + len(uruns_corpus) + len(corpus_e2e) + len(cruns)
-    n_random = 1800 if tier == "quick" else 40000
+    n_random = 1500 if tier == "quick" else 40000
     for _ in range(n_random):
         sruns.append(sock_random_case(rng, rng.choice([6, 10, 16, 24, 40, 60])))
     t0 = time.time()
@@ -1576,10 +1576,10 @@ def check(tier: str) -> int:
     cmon = [(r, msg) for r in cruns for msg in r.mon]
 
     # ---------------- kernel-checked samples ----------------
-    sample_n = 40 if tier == "quick" else 300
+    sample_n = 24 if tier == "quick" else 300
     idx = list(range(len(scases)))
     rng.shuffle(idx)
-    idx = [i for i in idx if len(scases[i]) < 400][:sample_n]
+    idx = [i for i in idx if len(scases[i]) < (250 if tier == "quick" else 400)][:sample_n]
     vm_ok_s, vm_log_s = core.coq_eval_cases("c18s", "SockProto", [scases[i] for i in idx], [sexp[i] for i in idx])
     uidx = list(range(len(ucs)))
     rng.shuffle(uidx)
